@@ -440,6 +440,8 @@ class C06(Check):
         specs.append(("designed/volcurve-clamp", K.volcurve_clamp_spec()))
         specs.append(("designed/curve-ends-at-max", K.curve_end_at_limit_spec("max")))
         specs.append(("designed/curve-starts-at-min", K.curve_end_at_limit_spec("min")))
+        specs.append(("designed/reversed-tank-link", K.reversed_tank_link_spec("reverse")))
+        specs.append(("designed/swapped-ends-tank-link", K.reversed_tank_link_spec("swap_ends")))
         specs.append(("designed/reservoir-head-pattern-start", K.reservoir_pattern_spec()))
         for mk in (K.overflow_spec, K.curve_end_at_limit_spec, K.reservoir_pattern_spec):
             sp = mk()
@@ -472,6 +474,8 @@ class C06(Check):
                 force["leaks"] = True
             if i % 4 == 0:
                 force["rerun"] = True
+            if i % 5 == 1:
+                force["morph"] = True
             specs.append(("seed%d/net%d" % (ctx.seed, i), K.random_network(ctx.rng, ctx.quick, force)))
         for k, (label, spec) in enumerate(specs):
             tr = self._network(ctx, B, spec, label, failures, broken, grid_check=(k % 3 == 0))
